@@ -1,6 +1,474 @@
-"""C08 rules (placeholder: fail-closed until the rules are implemented)."""
-from ..loader import AnalysisError
+"""C08 - a target's reported state is the scheduler's state of its own latest job (tables, keys, precedence)."""
+import ast
+
+from ..consteval import CantEval, EnumVal, DefaultDict, enum_members
+from ..index import FuncInfo, dotted, walk_no_nested, loc, ancestors
+from ..miniterp import MappingError, map_code
+from ..reference import states as REF
+from .localpool import LOCAL, _calls, scheduler_info
+
+BASE = "gwf.backends.base"
+
+
+def _cls_name(v):
+    return v.member if isinstance(v, EnumVal) else repr(v)
+
+
+def _find_block(fn, pred):
+    """(statement list, index) of the first statement satisfying pred, searching nested blocks."""
+    def rec(stmts):
+        for i, st in enumerate(stmts):
+            if pred(st):
+                return stmts, i
+            for fld in ("body", "orelse", "finalbody"):
+                sub = getattr(st, fld, None)
+                if isinstance(sub, list) and sub and isinstance(sub[0], ast.stmt):
+                    r = rec(sub)
+                    if r:
+                        return r
+            for h in getattr(st, "handlers", []):
+                r = rec(h.body)
+                if r:
+                    return r
+        return None
+    return rec(fn.node.body)
+
+
+def check_mapping(ctx, rule, fn, table_name, reference, bind, tail_from, sep_hint=None):
+    """Evaluate the code->class mapping of `fn` for every documented code and compare with the reference classes."""
+    construct = f"{fn.module.relpath}::{fn.qual}"
+    found = _find_block(fn, tail_from)
+    if found is None:
+        rule.violation(construct, f"cannot locate where the {table_name} state code is read", fn.where)
+        return
+    stmts, i = found
+    n_ok = 0
+    for code, (allowed, why) in reference.items():
+        env = bind(code, stmts[i])
+        try:
+            stores = map_code(ctx.ev, fn.module, stmts[i:], env)
+        except MappingError as exc:
+            rule.violation(f"{construct}::{code}", f"{table_name} code {code!r} ({why}) makes the state lookup fail ({exc}): "
+                           "every gwf command crashes while such a job exists", loc(stmts[i], fn.module))
+            continue
+        vals = [v for (_t, _k, v) in stores if isinstance(v, EnumVal)]
+        if not vals:
+            got = "UNKNOWN"  # skipped: the id keeps its default / is absent from the map
+        else:
+            got = vals[-1].member
+        if got in allowed:
+            n_ok += 1
+            rule.ok(f"{construct}::{code}", f"{code} -> {got}", loc(stmts[i], fn.module))
+        else:
+            rule.violation(f"{construct}::{code}", f"{table_name} code {code!r} ({why}) is reported as {got}; the property allows {sorted(allowed)}",
+                           loc(stmts[i], fn.module))
+    return n_ok
 
 
 def run(ctx):
-    raise AnalysisError("rules for C08 not implemented yet")
+    idx = ctx.index
+    ev = ctx.ev
+
+    # ------------------------------------------------------------------ R1 tables
+    r1 = ctx.rule("R1", "every documented scheduler state code maps to a class the property allows (tables evaluated from the source)", min_instances=60)
+    # Slurm squeue
+    fn = idx.func("gwf.backends.slurm:SlurmOps.get_job_states_from_squeue")
+
+    def is_split_assign(st):
+        return isinstance(st, ast.Assign) and isinstance(st.targets[0], ast.Tuple) and len(st.targets[0].elts) == 2 and any(
+            isinstance(c.func, ast.Attribute) and c.func.attr == "split" for c in _calls(st.value))
+
+    def bind_line(sep):
+        def bind(code, st):
+            line_names = [n.id for n in ast.walk(st.value) if isinstance(n, ast.Name)]
+            env = {ln: f"4242{sep}{code}" for ln in line_names}
+            env["tracked_jobs"] = ["4242"]
+            return env
+        return bind
+
+    check_mapping(ctx, r1, fn, "squeue", REF.SLURM_SHORT, bind_line(";"), is_split_assign)
+    # squeue format <-> parser
+    fmt = sep = None
+    for c in _calls(fn.node):
+        if isinstance(c.func, (ast.Name, ast.Attribute)) and idx.canon(c.func, fn.module) == "gwf.backends.utils.call":
+            for a in c.args:
+                if isinstance(a, ast.Constant) and isinstance(a.value, str) and a.value.startswith("--format="):
+                    fmt = a.value[len("--format="):]
+    for st in walk_no_nested(fn.node):
+        if is_split_assign(st):
+            for c in _calls(st.value):
+                if isinstance(c.func, ast.Attribute) and c.func.attr == "split" and c.args and isinstance(c.args[0], ast.Constant):
+                    sep = c.args[0].value
+    r1.check(fmt is not None and sep is not None and fmt == f"%i{sep}%t", f"{fn.module.relpath}::{fn.qual}::format",
+             f"squeue --format={fmt} parsed as <id>{sep}<short state>",
+             f"squeue is asked for --format={fmt!r} but its lines are parsed as <job id>{sep!r}<compact state>: ids and states no longer line up", fn.where)
+    all_users = any(isinstance(a, ast.Constant) and a.value in ("--all", "-a") for c in _calls(fn.node) for a in c.args)
+    flt = any(isinstance(n, ast.Compare) and isinstance(n.ops[0], ast.In) and dotted(n.comparators[0]) == fn.positional_params()[1]
+              for n in walk_no_nested(fn.node))
+    r1.check(flt, f"{fn.module.relpath}::{fn.qual}::own-jobs", "queue lines are kept only for tracked job ids",
+             "squeue lines are not restricted to the tracked job ids: unrelated jobs would enter the state map", fn.where)
+
+    # Slurm sacct
+    fn2 = idx.func("gwf.backends.slurm:SlurmOps.get_job_states_from_sacct")
+    check_mapping(ctx, r1, fn2, "sacct", REF.SLURM_LONG, bind_line("|"), is_split_assign)
+    # "CANCELLED by 1234"
+    found = _find_block(fn2, is_split_assign)
+    if found:
+        stmts, i = found
+        try:
+            stores = map_code(ev, fn2.module, stmts[i:], bind_line("|")("CANCELLED by 1234", stmts[i]))
+            vals = [v for (_t, _k, v) in stores if isinstance(v, EnumVal)]
+            r1.check(bool(vals) and vals[-1].member == "CANCELLED", f"{fn2.module.relpath}::{fn2.qual}::CANCELLED by",
+                     "'CANCELLED by <uid>' is cleaned to CANCELLED", "sacct's 'CANCELLED by <uid>' is not reported as cancelled", fn2.where)
+        except MappingError as exc:
+            r1.violation(f"{fn2.module.relpath}::{fn2.qual}::CANCELLED by", f"sacct's 'CANCELLED by <uid>' makes the lookup fail ({exc})", fn2.where)
+    sacct_args = [a.value for n in walk_no_nested(fn2.node) if isinstance(n, (ast.List, ast.Tuple, ast.Call))
+                  for a in (n.elts if isinstance(n, (ast.List, ast.Tuple)) else n.args) if isinstance(a, ast.Constant) and isinstance(a.value, str)]
+    r1.check("sacct" in sacct_args and ("--allocations" in sacct_args or "-X" in sacct_args) and "--parsable2" in sacct_args
+             and any(a.replace(" ", "").lower() in ("--format=jobid,state",) for a in sacct_args),
+             f"{fn2.module.relpath}::{fn2.qual}::format", "sacct --allocations --parsable2 --format=jobid,state parsed as <id>|<state>",
+             f"sacct arguments {sacct_args} do not produce one '<jobid>|<state>' line per job allocation (steps or other columns would be parsed as jobs)",
+             fn2.where)
+    # every long name composes to a short key (LONG -> SHORT totality)
+    try:
+        long_t = ev.eval_global("gwf.backends.slurm", "SLURM_LONG_STATES")
+        short_t = ev.eval_global("gwf.backends.slurm", "SLURM_SHORT_STATES")
+        missing = sorted(v for v in long_t.values() if v not in short_t)
+        r1.check(not missing, "src/gwf/backends/slurm.py::SLURM_LONG_STATES", f"{len(long_t)} long names all map to known short codes",
+                 f"long state names map to short codes {missing} that the short table does not know", "src/gwf/backends/slurm.py:1")
+    except (CantEval, Exception) as exc:  # tables restructured: the per-code evaluation above still decides
+        r1.info("src/gwf/backends/slurm.py::SLURM_LONG_STATES", f"tables not evaluable as dicts ({exc})")
+
+    # LSF
+    fn3 = idx.func("gwf.backends.lsf:LSFOps.get_job_states")
+
+    def is_bjobs_assign(st):
+        return isinstance(st, ast.Assign) and isinstance(st.targets[0], ast.Name) and any(
+            isinstance(c.func, (ast.Name, ast.Attribute)) and idx.canon(c.func, fn3.module) == "gwf.backends.utils.call" for c in _calls(st.value))
+
+    def bind_lsf(code, st):
+        return {st.targets[0].id: code, "job_id": "4242", "tracked_jobs": ["4242"]}
+
+    found = _find_block(fn3, is_bjobs_assign)
+    if found is None:
+        r1.violation(f"{fn3.module.relpath}::{fn3.qual}", "cannot locate where the bjobs state is read", fn3.where)
+    else:
+        stmts, i = found
+        # the assignment itself is opaque (call); evaluate from the next statement with the variable bound
+        check_mapping(ctx, r1, fn3, "bjobs", REF.LSF, lambda code, st0: bind_lsf(code, stmts[i]),
+                      lambda st: st is stmts[i + 1] if i + 1 < len(stmts) else False)
+        # empty answer (job not in the queue any more) keeps the default UNKNOWN
+        stores = []
+        try:
+            stores = map_code(ev, fn3.module, stmts[i + 1:], bind_lsf("", stmts[i]))
+        except MappingError:
+            stores = [("?", None, EnumVal("x", "ERROR"))]
+        vals = [v for (_t, _k, v) in stores if isinstance(v, EnumVal)]
+        r1.check(not vals or vals[-1].member == "UNKNOWN", f"{fn3.module.relpath}::{fn3.qual}::<empty>", "no record -> UNKNOWN",
+                 f"an empty bjobs answer (no record) is reported as {vals[-1].member if vals else '?'}", fn3.where)
+    strip_ok = found is not None and any(isinstance(c.func, ast.Attribute) and c.func.attr == "strip" for c in _calls(found[0][found[1]].value))
+    r1.check(strip_ok, f"{fn3.module.relpath}::{fn3.qual}::strip", "bjobs output is stripped before the lookup",
+             "the bjobs output is looked up with its trailing newline: no code ever matches", fn3.where)
+
+    # SGE
+    fn4 = idx.func("gwf.backends.sge:SGEOps.get_job_states")
+
+    def is_state_assign(st):
+        return isinstance(st, ast.Assign) and isinstance(st.targets[0], ast.Name) and 'find("state")' in ast.unparse(st.value).replace("'", '"')
+
+    found = _find_block(fn4, is_state_assign)
+    if found is None:
+        r1.violation(f"{fn4.module.relpath}::{fn4.qual}", "cannot locate where the qstat state string is read", fn4.where)
+    else:
+        stmts, i = found
+        svar = stmts[i].targets[0].id
+        check_mapping(ctx, r1, fn4, "qstat", REF.SGE, lambda code, st0: {svar: code, "job_id": "4242"},
+                      lambda st: st is stmts[i + 1] if i + 1 < len(stmts) else False)
+
+    # local
+    try:
+        smap = ev.eval_global(LOCAL, "STATUS_MAP")
+    except CantEval as exc:
+        smap = None
+        r1.violation("src/gwf/backends/local.py::STATUS_MAP", f"cannot evaluate the local status map ({exc})", "src/gwf/backends/local.py:1")
+    if smap is not None:
+        members = enum_members(idx, idx.cls(f"{LOCAL}:LocalStatus"))
+        for m in members:
+            allowed, why = REF.LOCAL.get(m, ({"UNKNOWN"}, "member not in the reference"))
+            key = EnumVal(f"{LOCAL}.LocalStatus", m)
+            if key not in smap:
+                r1.violation(f"src/gwf/backends/local.py::STATUS_MAP::{m}", f"LocalStatus.{m} has no entry in STATUS_MAP: status queries crash with KeyError "
+                             "as soon as a task is in that state", "src/gwf/backends/local.py:1")
+            else:
+                got = _cls_name(smap[key])
+                r1.check(got in allowed, f"src/gwf/backends/local.py::STATUS_MAP::{m}", f"{m} -> {got}",
+                         f"local task state {m} ({why}) is reported as {got}; the property allows {sorted(allowed)}", "src/gwf/backends/local.py:1")
+    # encoder/decoder agree on names
+    enc = idx.func(f"{LOCAL}:CustomEncoder.default")
+    enc_ok = any(isinstance(n, ast.Return) and isinstance(n.value, ast.Attribute) and n.value.attr == "name" for n in walk_no_nested(enc.node))
+    st_fn = idx.func(f"{LOCAL}:Client.status")
+    dec_ok = any(isinstance(n, ast.Subscript) and dotted(n.value) == "LocalStatus" for n in ast.walk(st_fn.node))
+    r1.check(enc_ok and dec_ok, "src/gwf/backends/local.py::wire-state-encoding", "states travel by member name (encoder .name / decoder LocalStatus[name])",
+             "the pool encodes task states differently from how the client decodes them", enc.where)
+
+    # ------------------------------------------------------------------ R2 key agreement
+    r2 = ctx.rule("R2", "status reads the state of the id written at the last submit; ids agree between writer and reader", min_instances=6)
+    tb = idx.cls(f"{BASE}:TrackingBackend")
+    st_m = idx.method(tb, "status")
+    sub_m = idx.method(tb, "submit")
+    scon = f"{st_m.module.relpath}::{st_m.qual}"
+    tparam = st_m.positional_params()[1]
+    # status: id := tracked.get(target.name) ; return states.get(id, UNKNOWN)
+    id_from_name = False
+    ret_ok = False
+    id_var = None
+    for n in walk_no_nested(st_m.node):
+        if isinstance(n, ast.Assign) and isinstance(n.targets[0], ast.Name):
+            t = ast.unparse(n.value)
+            if t in (f"self._tracked_jobs.get({tparam}.name)", f"self._tracked_jobs.get({tparam}.name, None)"):
+                id_from_name = True
+                id_var = n.targets[0].id
+        if isinstance(n, ast.Return) and n.value is not None:
+            t = ast.unparse(n.value)
+            if id_var and t == f"self._job_states.get({id_var}, BackendStatus.UNKNOWN)":
+                ret_ok = True
+            if t == f"self._job_states.get(self._tracked_jobs.get({tparam}.name), BackendStatus.UNKNOWN)":
+                id_from_name = ret_ok = True
+    r2.check(id_from_name and ret_ok, scon, "state of tracked[target.name], UNKNOWN when absent",
+             "TrackingBackend.status does not return the state recorded for the job id tracked under the target's own name (UNKNOWN when absent)",
+             st_m.where)
+    # submit: tracked[target.name] = id returned by ops.submit_target ; states[id] = SUBMITTED
+    sp = sub_m.positional_params()
+    jid = None
+    w_tracked = w_state = False
+    for n in walk_no_nested(sub_m.node):
+        if isinstance(n, ast.Assign) and isinstance(n.targets[0], ast.Name) and any(
+                isinstance(c.func, ast.Attribute) and c.func.attr == "submit_target" for c in _calls(n.value)):
+            if isinstance(n.value, ast.Call):
+                jid = n.targets[0].id
+    for n in walk_no_nested(sub_m.node):
+        if isinstance(n, ast.Assign) and isinstance(n.targets[0], ast.Subscript):
+            tt = ast.unparse(n.targets[0])
+            if tt == f"self._tracked_jobs[{sp[1]}.name]" and isinstance(n.value, ast.Name) and n.value.id == jid:
+                w_tracked = True
+            if jid and tt == f"self._job_states[{jid}]":
+                try:
+                    v = ev.eval(n.value, sub_m.module)
+                    w_state = isinstance(v, EnumVal) and v.member == "SUBMITTED"
+                except CantEval:
+                    pass
+    r2.check(jid is not None and w_tracked and w_state, f"{sub_m.module.relpath}::{sub_m.qual}",
+             "tracked[target.name] := id returned by the scheduler; states[id] := SUBMITTED",
+             "TrackingBackend.submit does not record the id returned by the scheduler under the target's name and mark that id SUBMITTED "
+             "(the next decision in the same run would submit the target again / dependents get a wrong id)", sub_m.where)
+    # all tracked ids are queried
+    init_s = idx.method(tb, "_init_status")
+    q_ok = any(isinstance(c.func, ast.Attribute) and c.func.attr == "get_job_states" and c.args and
+               ast.unparse(c.args[0]) in ("list(self._tracked_jobs.values())", "self._tracked_jobs.values()", "set(self._tracked_jobs.values())")
+               for c in _calls(init_s.node))
+    r2.check(q_ok, f"{init_s.module.relpath}::{init_s.qual}", "all tracked ids are passed to ops.get_job_states",
+             "the backend does not query the states of all tracked job ids", init_s.where)
+    # load path == save path; what is saved is the in-memory table
+    close_m = idx.method(tb, "close")
+    init_t = idx.method(tb, "_init_tracked")
+    load_ok = any(isinstance(c.func, (ast.Name, ast.Attribute)) and idx.canon(c.func, init_t.module) == "builtins.open" and c.args
+                  and ast.unparse(c.args[0]) == "self._get_state_path()" for c in _calls(init_t.node))
+    r2.check(load_ok, f"{init_t.module.relpath}::{init_t.qual}", "tracked ids are loaded from self._get_state_path()",
+             "tracked ids are not loaded from the backend's state path", init_t.where)
+    dump_obj = None
+    for c in _calls(close_m.node):
+        if isinstance(c.func, (ast.Name, ast.Attribute)) and idx.canon(c.func, close_m.module) == "json.dump" and c.args:
+            dump_obj = c.args[0]
+    ok = False
+    why = "close() does not json.dump anything"
+    if dump_obj is not None:
+        t = ast.unparse(dump_obj)
+        if t in ("self._tracked_jobs", "dict(self._tracked_jobs)"):
+            ok = True
+        elif isinstance(dump_obj, ast.Name):
+            assigns = [n for n in walk_no_nested(close_m.node) if isinstance(n, ast.Assign) and any(isinstance(x, ast.Name) and x.id == dump_obj.id for x in n.targets)]
+            muts = [c for c in _calls(close_m.node) if isinstance(c.func, ast.Attribute) and dotted(c.func.value) == dump_obj.id
+                    and c.func.attr in ("update", "pop", "clear", "setdefault", "popitem")]
+            muts += [n for n in walk_no_nested(close_m.node) if isinstance(n, (ast.Assign, ast.Delete)) and any(
+                isinstance(x, ast.Subscript) and dotted(x.value) == dump_obj.id for x in (n.targets if hasattr(n, "targets") else []))]
+            if len(assigns) == 1 and ast.unparse(assigns[0].value) in ("self._tracked_jobs", "dict(self._tracked_jobs)", "self._tracked_jobs.copy()") and not muts:
+                ok = True
+            else:
+                why = f"close() saves `{dump_obj.id}`, which is not (a plain copy of) the in-memory job table: ids recorded by this invocation can be lost or replaced"
+        else:
+            why = f"close() saves `{t[:60]}` instead of the in-memory job table"
+    r2.check(ok, f"{close_m.module.relpath}::{close_m.qual}::dump", "the in-memory job table is what is saved", why, close_m.where)
+    sp_m = idx.method(tb, "_get_state_path")
+    sp_txt = ast.unparse(sp_m.node)
+    r2.check(".gwf" in sp_txt and "self.name" in sp_txt and "self.working_dir" in sp_txt, f"{sp_m.module.relpath}::{sp_m.qual}",
+             "state file is <project>/.gwf/<backend name>-backend-tracked.json",
+             "the tracked-jobs file is not a per-backend file under the project's .gwf directory", sp_m.where)
+    # id normalisation per backend (writer) and reader key types
+    for mod, cname in (("gwf.backends.slurm", "SlurmOps"), ("gwf.backends.sge", "SGEOps"), ("gwf.backends.lsf", "LSFOps")):
+        m = idx.func(f"{mod}:{cname}.submit_target")
+        rets = [n for n in walk_no_nested(m.node) if isinstance(n, ast.Return) and n.value is not None]
+        bad = None
+        for rnode in rets:
+            if not _normalised_id(idx, m, rnode.value):
+                bad = rnode
+        r2.check(rets and bad is None, f"{m.module.relpath}::{m.qual}::id", "the id handed back is stripped / extracted from the scheduler's output",
+                 "the job id returned to gwf is the raw output of the submit command (with its trailing newline): the queue listing never matches it, "
+                 "so the job's state is never found and dependents are held on a malformed id", loc(bad, m.module) if bad is not None else m.where)
+    lo = idx.func(f"{LOCAL}:LocalOps.get_job_states")
+    txt = ast.unparse(lo.node)
+    tparam = lo.positional_params()[1]
+    dc = [n for n in walk_no_nested(lo.node) if isinstance(n, ast.DictComp)]
+    ok = False
+    if dc:
+        d = dc[0]
+        g = d.generators[0]
+        kname = g.target.elts[0].id if isinstance(g.target, ast.Tuple) and isinstance(g.target.elts[0], ast.Name) else None
+        key_ok = ast.unparse(d.key) == f"int({kname})"
+        flt_ok = all(ast.unparse(c) == f"int({kname}) in {tparam}" for c in g.ifs)
+        ok = key_ok and flt_ok
+    r2.check(ok, f"{lo.module.relpath}::{lo.qual}", "JSON string keys are converted with int() for both the key and the membership test",
+             "the local backend keys the state map differently from the integer ids it tracks (JSON object keys arrive as strings)", lo.where)
+
+    # ------------------------------------------------------------------ R3 Slurm precedence, batching
+    r3 = ctx.rule("R3", "Slurm: accounting only when enabled, live queue overrides accounting, batches cover all ids", min_instances=3)
+    gjs = idx.func("gwf.backends.slurm:SlurmOps.get_job_states")
+    res = ctx.resolver
+    # functions of the module that reach a sacct query
+    sacct_fns = set()
+    for f in idx.functions.values():
+        if f.module.name != "gwf.backends.slurm":
+            continue
+        _v, effs, _u = res.reach(f)
+        if any(e.kind == "SCHED_QUERY" and e.detail == "sacct" for e in effs):
+            sacct_fns.add(f.key)
+    guard_ok = True
+    n_sites = 0
+    squeue_line = sacct_line = None
+    for n in walk_no_nested(gjs.node):
+        if isinstance(n, ast.Call):
+            callees = [c for c in res.callees(n, gjs, {}) if isinstance(c, FuncInfo)]
+            if any(c.key in sacct_fns and c.key != gjs.key for c in callees):
+                n_sites += 1
+                sacct_line = n.lineno
+                guarded = False
+                for a in ancestors(n):
+                    if isinstance(a, ast.If) and ast.unparse(a.test) == "self.accounting_enabled" and any(n in ast.walk(b) for b in a.body):
+                        guarded = True
+                if not guarded:
+                    guard_ok = False
+                    r3.violation(f"{gjs.module.relpath}::{gjs.qual}::sacct-guard", "the accounting database is queried without testing accounting_enabled: "
+                                 "with accounting disabled sacct is still consulted", loc(n, gjs.module))
+            if any(c.key.endswith("get_job_states_from_squeue") for c in callees):
+                squeue_line = n.lineno
+    if guard_ok:
+        r3.check(n_sites >= 1 or gjs.key not in sacct_fns, f"{gjs.module.relpath}::{gjs.qual}::sacct-guard",
+                 f"{n_sites} accounting call site(s), all under `if self.accounting_enabled`",
+                 "sacct is reachable from get_job_states but no guarded call site was found", gjs.where)
+    if gjs.key not in sacct_fns:
+        r3.violation(f"{gjs.module.relpath}::{gjs.qual}::sacct", "accounting is never consulted: failed/cancelled jobs that left the queue are not reported", gjs.where)
+    # other callers of sacct functions
+    for f in idx.functions.values():
+        if f.key in sacct_fns or f.key == gjs.key:
+            continue
+        for n in walk_no_nested(f.node):
+            if isinstance(n, ast.Call) and any(isinstance(c, FuncInfo) and c.key in sacct_fns and c.module.name == "gwf.backends.slurm"
+                                               for c in res.callees(n, f, {})):
+                if isinstance(n.func, ast.Attribute) and n.func.attr.startswith("get_job_states_from_sacct"):
+                    r3.violation(f"{f.module.relpath}::{f.qual}", "sacct is queried from outside the guarded path", loc(n, f.module))
+    # squeue wins: its update comes last on the same dict
+    order_ok = squeue_line is not None and (sacct_line is None or squeue_line > sacct_line)
+    upd = [n for n in walk_no_nested(gjs.node) if isinstance(n, ast.Call) and isinstance(n.func, ast.Attribute) and n.func.attr == "update"]
+    same_dict = len({dotted(u.func.value) for u in upd}) == 1 and len(upd) >= 2
+    rets = [n for n in walk_no_nested(gjs.node) if isinstance(n, ast.Return) and n.value is not None]
+    ret_same = rets and upd and all(dotted(r.value) == dotted(upd[0].func.value) for r in rets)
+    r3.check(order_ok and same_dict and ret_same, f"{gjs.module.relpath}::{gjs.qual}::precedence",
+             "accounting states are written first, live queue states overwrite them, that dict is returned",
+             "the live queue (squeue) does not take precedence over the accounting database: stale accounting data would hide a job that is queued or running again",
+             gjs.where)
+    squeue_unguarded = squeue_line is not None and not any(
+        isinstance(a, ast.If) for n in walk_no_nested(gjs.node) if isinstance(n, ast.Call) and n.lineno == squeue_line for a in ancestors(n))
+    r3.check(squeue_unguarded, f"{gjs.module.relpath}::{gjs.qual}::squeue", "the live queue is always consulted",
+             "the live queue is not consulted unconditionally", gjs.where)
+    # batching
+    bf = idx.func("gwf.backends.slurm:SlurmOps.get_job_states_from_sacct_batched")
+    bcon = f"{bf.module.relpath}::{bf.qual}"
+    loops = [n for n in walk_no_nested(bf.node) if isinstance(n, ast.For)]
+    ok = False
+    detail = "no `for i in range(0, len(ids), batch)` loop with slice ids[i:i+batch]"
+    for lp in loops:
+        it = lp.iter
+        if isinstance(it, ast.Call) and idx.canon(it.func, bf.module) == "builtins.range" and len(it.args) == 3 and isinstance(lp.target, ast.Name):
+            start, stop, step = it.args
+            ids = bf.positional_params()[1]
+            if isinstance(start, ast.Constant) and start.value == 0 and ast.unparse(stop) == f"len({ids})":
+                i = lp.target.id
+                stp = ast.unparse(step)
+                slices = [n for n in ast.walk(lp) if isinstance(n, ast.Subscript) and isinstance(n.slice, ast.Slice) and dotted(n.value) == ids]
+                for s in slices:
+                    lo_ = ast.unparse(s.slice.lower) if s.slice.lower else None
+                    up_ = ast.unparse(s.slice.upper).replace(" ", "") if s.slice.upper else None
+                    if lo_ == i and up_ in (f"{i}+{stp}", f"{stp}+{i}") and s.slice.step is None:
+                        ok = True
+                    else:
+                        detail = f"batch slice `{ast.unparse(s)}` with loop `{ast.unparse(it)}` does not cover ids[{i}:{i}+{stp}]"
+                # each batch result is merged
+                merged = any(isinstance(c.func, ast.Attribute) and c.func.attr == "update" for c in _calls(lp))
+                if ok and not merged:
+                    ok = False
+                    detail = "batch results are not merged into the returned map"
+    r3.check(ok, bcon, "batches ids[i:i+batch] for i in range(0, len(ids), batch) cover every tracked id exactly once",
+             f"accounting batches do not cover all tracked ids: {detail}", bf.where)
+    # empty batch guard in the single query is fine; joined ids
+    jn = any(isinstance(n, ast.Call) and isinstance(n.func, ast.Attribute) and n.func.attr == "join" and n.args and
+             dotted(n.args[0]) == fn2.positional_params()[1] for n in ast.walk(fn2.node))
+    r3.check(jn, f"{fn2.module.relpath}::{fn2.qual}::jobs", "all ids of the batch are passed to sacct --jobs",
+             "the accounting query does not name all ids of its batch", fn2.where)
+
+    # ------------------------------------------------------------------ R4 identity across pool restarts (known design gap D23)
+    r4 = ctx.rule("R4", "a tracked id denotes the same job across invocations")
+    info = scheduler_info(ctx)
+    enq = idx.func(f"{LOCAL}:Scheduler.enqueue_task")
+    fld = info["cls"].field(info["tidgen"]) if info["tidgen"] else None
+    per_process = False
+    if fld is not None and isinstance(fld[2], ast.Call):
+        for kw in fld[2].keywords:
+            if kw.arg == "factory" and idx.canon(kw.value, info["cls"].module) == "itertools.count":
+                per_process = True
+    plain = any(isinstance(n, ast.Assign) and isinstance(n.value, ast.Call) and idx.canon(n.value.func, enq.module) == "builtins.next"
+                for n in walk_no_nested(enq.node))
+    if per_process and plain:
+        r4.violation(f"src/gwf/backends/local.py::Scheduler.{info['tidgen']}",
+                     "local task ids come from a per-process itertools.count() while tracked ids persist in .gwf/local-backend-tracked.json: "
+                     "after a restart of the worker pool a tracked id denotes a different (or no) task, so a target can show another task's state",
+                     info["cls"].where)
+    else:
+        r4.ok(f"src/gwf/backends/local.py::Scheduler.{info['tidgen']}", "ids carry a pool-instance discriminator", info["cls"].where)
+
+
+def _normalised_id(idx, m, expr):
+    """True if the returned id went through strip()/a regex group/int()."""
+    if isinstance(expr, ast.Call) and isinstance(expr.func, ast.Attribute) and expr.func.attr in ("strip", "rstrip", "group") and not (
+            expr.func.attr != "group" and expr.args and False):
+        return True
+    if isinstance(expr, ast.Call) and isinstance(expr.func, ast.Name) and expr.func.id == "int":
+        return True
+    if isinstance(expr, ast.Subscript):
+        # re.search(...)[1] or m.group
+        inner = expr.value
+        if isinstance(inner, ast.Call) and (idx.canon(inner.func, m.module) or "").startswith("re."):
+            return True
+        if isinstance(inner, ast.Name):
+            return _local_normalised(idx, m, inner.id)
+    if isinstance(expr, ast.Name):
+        return _local_normalised(idx, m, expr.id)
+    return False
+
+
+def _local_normalised(idx, m, name):
+    for n in walk_no_nested(m.node):
+        if isinstance(n, ast.Assign) and any(isinstance(t, ast.Name) and t.id == name for t in n.targets):
+            if _normalised_id(idx, m, n.value):
+                return True
+            if isinstance(n.value, ast.Call) and (idx.canon(n.value.func, m.module) or "").startswith("re."):
+                return True
+    return False
